@@ -119,7 +119,7 @@ theorem LI.la_some {now : Nat} {lost stalled : Bool} {la : Option Nat} {lb : Opt
 
 /-- the record of a loss that happens now -/
 theorem LI.lose {now : Nat} {stalled : Bool} {la : Option Nat} {lb : Option Cause}
-    {aa aa' : Option Nat} {why : Cause} (l : LI now false stalled la lb aa)
+    {aa aa' : Option Nat} {why : Cause} (_l : LI now false stalled la lb aa)
     (hw : why = .graceful → stalled = false)
     (ha : (why = .abort ∧ aa' = some now) ∨ (why ≠ .abort ∧ aa' = none)) :
     LI now true stalled (some now) (some why) aa' := by
